@@ -1,18 +1,26 @@
-// C12 interleaving harness: k real threads copy and drop tlx::CountingPtr handles to one shared object under a
-// deterministic scheduler.  Built with `-include harness/C12/atomic_shim.hpp`, which redirects std::atomic inside
-// namespace tlx to verif::atomic: every ++/-- of ReferenceCounter::reference_count_ is a scheduling point and is
-// logged with the value it read.  For every case the scheduler enumerates the interleavings depth-first
-// (all of them if fewer than the cap), or samples them.
+// C12 interleaving harness: k real threads run programs over tlx::CountingPtr handles to a shared object (and to the
+// clones unify() makes of it) under a deterministic scheduler.  Built with `-include harness/C12/atomic_shim.hpp`, which
+// redirects std::atomic inside namespace tlx to verif::atomic: every atomic operation on
+// ReferenceCounter::reference_count_ (++, --, fetch_*, load, store) is a scheduling point and is logged with the value
+// it read and the object it belongs to; so are the Deleter call and the element's copy constructor (what unify() runs
+// between its !unique() test and the release of the original).  For every case the scheduler enumerates the
+// interleavings depth-first (all of them if fewer than the cap), or samples them.
 //
 // case line:   conc <cap> <mode> <prog0> <prog1> ...      mode = dfs | rand:<seed>:<count> | sched:<c0.c1.c2...>
-//   program letters (thread-local vector of handles, each thread starts with one handle):
-//     C copy-construct from the last handle      c copy-ASSIGN the last handle into an empty handle
+//   program letters (thread-local vector of handles, each thread starts with one handle to object 0):
+//     C copy-construct from the last handle      c copy-ASSIGN the last handle into an empty handle (+ move constructor)
 //     D destroy the last handle                  r reset() the last handle      x overwrite the last handle by an empty one (move-assign)
 //     U dereference the last handle (the object must be alive)
+//     u unify() the last handle                  q unique(), use_count(), get, bool/valid/empty, comparisons
+//     m move-construct out of the last handle and move-assign back               s swap (member and free function)
+//     k converting copy constructor / copy assignment to CountingPtr<const T>, released again
+//     K converting move constructor / move assignment                            n a CountingPtrNoDelete handle from get(), moved, released
 //   at its end every thread destroys the handles it still has.
 // stdout:      one summary line per case
-// argv[2]:     one line per executed interleaving: "trace <case#> <initial handles> <events> ; dtor=<n> live=<0|1> P=<verdict>"
-//   events: CS,t  A,t,old  S,t,old  D,t  G,t,u  U,t      (same vocabulary as coq/C12/Conc.v)
+// argv[2]:     one line per executed interleaving: "trace <case#> <initial handles> <events> ; dtor=<Deleter calls per object> P=<verdict> sched=<choices>"
+//   events (last field = object): CS,t,o  A,t,old,o  S,t,old,o  L,t,val,o  W,t,val,o  D,t,o  G,t,u,o  U,t,o  K,t,orig,clone
+//   (vocabulary of coq/C12/Conc.v; the driver projects the trace onto each object: K is EvCloneRead for the original,
+//    and the clone's own life starts when its first handle exists, i.e. after its A,t,0,clone)
 #include <condition_variable>
 #include <cstdio>
 #include <cstdlib>
@@ -178,20 +186,19 @@ static void worker(int t, const std::string* prog, P* initial) {
                 if (hs.size() >= 2) { hs.back().swap(hs[hs.size() - 2]); swap(hs.back(), hs[hs.size() - 2]); hs.back().swap(hs[hs.size() - 2]); }
                 else { P e; hs.back().swap(e); hs.back().swap(e); }
             }
-            else if (c == 'k') {                                                                              // converting copy constructor, destructor of CountingPtr<const T>
+            else if (c == 'k') {                                                                              // converting copy constructor / copy assignment (T -> const T)
                 copy_begin(o); PCc y(hs.back()); copy_end(o);
-                PCc z; z = y;                                              // converting-free copy assignment: a second count
-                { copy_begin(o); }                                         // (logged before the fact is fine: z = y above already ran) -- see below
+                copy_begin(o); PCc z; z = hs.back(); copy_end(o);
                 drop_begin(o); y.reset(); drop_end();
-                drop_begin(o); z.reset(); drop_end();
+                drop_begin(o); { PCc w(std::move(z)); } drop_end();
             }
             else if (c == 'K') {                                                                              // converting move constructor / move assignment
                 copy_begin(o); P tmp(hs.back()); copy_end(o);
-                PCc y(std::move(tmp));
-                PCc z; z = P(std::move(hs.back())); hs.back() = P();        // moves only (z takes the thread's handle as const)
-                P back(const_cast<Obj*>(z.get()));                           // cannot convert back: re-acquire from the raw pointer
-                (void)back;
+                PCc y(std::move(tmp)); if (tmp) S.flag("moved-from handle not empty");
+                copy_begin(o); P tmp2(hs.back()); copy_end(o);
+                PCc z; z = std::move(tmp2); if (tmp2) S.flag("moved-from handle not empty");
                 drop_begin(o); y.reset(); drop_end();
+                drop_begin(o); z.reset(); drop_end();
             }
             else if (c == 'n') {                                                                              // a no-delete handle on the same object
                 copy_begin(o); PN x(hs.back().get()); copy_end(o);
